@@ -9,6 +9,11 @@ def build(ctx):
     return ctx.cxx("drv_vector", ["drv_vector.cpp"])
 
 
+def build_sp(ctx):
+    """the same driver against the copy of igris::vector in std_portable.h"""
+    return ctx.cxx("drv_vector_sp", ["drv_vector.cpp"], flags=["-DUSE_STD_PORTABLE"])
+
+
 def check(ctx):
     drv = build(ctx)
     drva = ctx.cxx("drv_assoc", ["drv_assoc.cpp"])
@@ -29,6 +34,19 @@ def check(ctx):
     bad = ctx.judge("VecLifeTrace", [t1, t2])
     for b in bad:
         b["driver"] = "drv_vector"
+        b["script"] = vec_script([json.loads(x) for x in b["exec"][:b["exec_pos"] + 1]])
+    ctx.report(bad)
+    # the std_portable.h copy of the vector (older interface: no initializer-list constructor, at() or operator<)
+    drvsp = build_sp(ctx)
+    script_sp, _, _ = vc.graph_scripts(ctx, g, [("vec", "tracked"), ("vec", "int")], old_vec=True)
+    rnd_sp = []
+    for i in range(1500 if ctx.thorough else 300):
+        rnd_sp += vc.random_script(ctx.rng, "vec", "tracked" if i % 3 else "int", 0, 80, old_vec=True)
+    t1 = ctx.drive(drvsp, script_sp, "vec_sp_cover")
+    t2 = ctx.drive(drvsp, rnd_sp, "vec_sp_random")
+    bad = ctx.judge("VecLifeTrace", [t1, t2], label="VecLifeTrace_sp")
+    for b in bad:
+        b["driver"] = "drv_vector_sp"
         b["script"] = vec_script([json.loads(x) for x in b["exec"][:b["exec_pos"] + 1]])
     ctx.report(bad)
     # flat_map / flat_set
@@ -77,7 +95,7 @@ def replay(ctx, path):
         t = ctx.drive(drv, lines, "replay")
         ctx.report(ctx.judge("AssocTrace", [t]))
     else:
-        drv = build(ctx)
+        drv = build_sp(ctx) if d.get("driver") == "drv_vector_sp" else build(ctx)
         t = ctx.drive(drv, d.get("script") or vec_script(d["execution"]), "replay")
         ctx.report(ctx.judge("VecLifeTrace", [t]))
     return ctx.finish(rule="replay of " + path)
